@@ -18,6 +18,15 @@ pub fn sk_leaf() {
     set_node(0, any_leaf(2));
 }
 
+/// root = one leaf of the given (concrete) kind with symbolic payload
+#[cfg(kani)]
+pub fn sk_leaf_k(kind: u8) {
+    set_tab(&STD_TAB);
+    let mut n = any_leaf(2);
+    n.kind = kind;
+    set_node(0, n);
+}
+
 /// root = sequence of `n` symbolic leaves (nodes 1..=n)
 #[cfg(kani)]
 pub fn sk_seq(n: usize) {
@@ -102,9 +111,7 @@ pub fn p_c01<T: Deserr<Rec<0>>>(ok_reachable: bool) {
     set_script(any_script());
     let r = deserialize::<T, SV, Rec<0>>(SV(0));
     post_c01(&r);
-    if ok_reachable {
-        kani::cover!(r.is_ok(), "Ok reached");
-    }
+    kani::cover!(!ok_reachable || r.is_ok(), "Ok reached");
     kani::cover!(r.is_err(), "Err reached");
     core::mem::forget(r);
 }
@@ -116,9 +123,7 @@ pub fn p_c04<T: Deserr<Rec<{ M_LOG | M_C04 }>>>(two: bool) {
     set_script(any_script());
     let r = deserialize::<T, SV, Rec<{ M_LOG | M_C04 }>>(SV(0));
     kani::cover!(r.is_err(), "Err reached");
-    if two {
-        kani::cover!(nrep() >= 2, "two reports reached");
-    }
+    kani::cover!(!two || nrep() >= 2, "two reports reached");
     core::mem::forget(r);
 }
 
@@ -138,13 +143,9 @@ pub fn p_c02<T: Deserr<Rec<M_LOG>> + Model>(ok_reachable: bool, two: bool) {
         }
         Err(_) => assert!(exp.n > 0, "C02: Err although the payload contains no fault"),
     }
-    if ok_reachable {
-        kani::cover!(r.is_ok(), "Ok reached");
-    }
+    kani::cover!(!ok_reachable || r.is_ok(), "Ok reached");
     kani::cover!(r.is_err(), "Err reached");
-    if two {
-        kani::cover!(nrep() >= 2, "two reports reached");
-    }
+    kani::cover!(!two || nrep() >= 2, "two reports reached");
     core::mem::forget(r);
 }
 
@@ -201,9 +202,7 @@ pub fn p_c03<T: Deserr<Rec<{ M_LOG | M_C03 }>>>(multi: bool) {
         assert!(unsafe { NDEC } == ndec_b, "C03: same answers, different number of decisions");
     }
     kani::cover!(broke && k == 0, "stopped at the first decision");
-    if multi {
-        kani::cover!(broke && k >= 1, "stopped after at least one continue");
-    }
+    kani::cover!(!multi || (broke && k >= 1), "stopped after at least one continue");
     kani::cover!(!broke, "never stopped");
     core::mem::forget(r2);
 }
@@ -261,13 +260,9 @@ pub fn p_cat<T: Deserr<Rec<M_LOG>> + Cat>(ok_reachable: bool, two: bool) {
         Err(_) => assert!(exp.n > 0, "C02: Err although the payload contains no fault"),
     }
     T::check_calls(0, r.is_ok());
-    if ok_reachable {
-        kani::cover!(r.is_ok(), "Ok reached");
-    }
+    kani::cover!(!ok_reachable || r.is_ok(), "Ok reached");
     kani::cover!(r.is_err(), "Err reached");
-    if two {
-        kani::cover!(nrep() >= 2, "two reports reached");
-    }
+    kani::cover!(!two || nrep() >= 2, "two reports reached");
     core::mem::forget(r);
 }
 
@@ -361,4 +356,48 @@ pub fn sk_obj_dup(tab: &[&'static str], n: usize, nkeys: u8) {
         i += 1;
     }
     kani::cover!(n >= 2 && keys[0] == keys[1], "duplicate key");
+}
+
+/// symbolic element of a concrete candidate set
+#[cfg(kani)]
+pub fn any_of(set: &[u8]) -> u8 {
+    let i: usize = kani::any();
+    kani::assume(i < set.len());
+    set[i]
+}
+
+/// Tagged-enum skeleton: member 0 is the tag (`tagkey`, concrete position) unless `with_tag`
+/// is false; its value is a symbolic leaf whose string ranges over `tagvals`; the other
+/// `n` members have symbolic pairwise distinct keys over `keys` and symbolic leaf values.
+#[cfg(kani)]
+pub fn sk_enum(tab: &[&'static str], with_tag: bool, tagkey: u8, tagvals: &[u8], n: usize, keys: &[u8]) {
+    set_tab(tab);
+    any_outcomes();
+    let mut kids = [0u8; 4];
+    let mut ks = [0u8; 4];
+    let mut m = 0usize;
+    if with_tag {
+        kids[0] = 1;
+        ks[0] = tagkey;
+        let mut t = any_leaf(1);
+        t.s = any_of(tagvals);
+        set_node(1, t);
+        m = 1;
+    }
+    let mut i = 0;
+    while i < n {
+        kids[m] = (m + 1) as u8;
+        ks[m] = any_of(keys);
+        let mut j = if with_tag { 1 } else { 0 };
+        while j < m {
+            kani::assume(ks[j] != ks[m]);
+            j += 1;
+        }
+        let mut v = any_leaf(1);
+        v.s = any_of(keys);
+        set_node(m + 1, v);
+        m += 1;
+        i += 1;
+    }
+    set_node(0, map_node(&kids[..m], &ks[..m]));
 }
